@@ -209,11 +209,11 @@ def run_with_faults(prop, run_case, case, acc, *args):
         from .base import ShardAcc
 
         scratch = ShardAcc(prop)
-        c0 = {k: v for k, v in case.items() if k != "faults"}
+        c0 = {k: v for k, v in case.items() if k not in ("faults", "fault_plan")}
         fctx = core.Ctx(None)
         rng = random.Random(core.sha([c0.get("src"), "fault"]))
         sites = fault.inject_around(fctx, rng, lambda: run_case(c0, scratch, *args), nf,
-                                    cold_key=(prop, c0.get("cls")))
+                                    cold_key=(prop, c0.get("cls")), record=case)
         acc.counters.update(fctx.counters)
         acc.counters["cases_run_after_injected_faults"] += 1
         for s in sites:
